@@ -430,6 +430,32 @@ def w_rec(rep, ex: Explorer, be: Backend):
         # ---- tie loop
         loops = [ev for ev, Q in iter_events(p.events) if ev.kind == "loop" and not Q and ev.data.get("exits")]
         tie = [ev for ev, Q in iter_events(p.events) if ev.kind == "loop" and not Q and ev.fam[0] == "members" and isinstance(ev.fam[1], tuple) and ev.fam[1][:2] == ("setop", "&")]
+        rv = p.outcome[1] if p.outcome[0] == "return" else None
+        if isinstance(rv, PredV):
+            # the answer handed back as a condition instead of being branched on (`return not ties`, `return all(... for
+            # t in ties)`): read as the two answers it stands for
+            pp, neg = rv.p, False
+            while pp[0] == "not":
+                pp, neg = pp[1], not neg
+            ties_d = ("setop", "&")
+            k0 = _k_is_zero(K0) if K0 is not None else None
+            n_rows += 1  # (the path stands for two rows)
+            if pp[0] == "empty" and isinstance(pp[1], tuple) and pp[1][:2] == ties_d and set(pp[1][2:]) == {V, Fm} and E is None:
+                # True exactly when there is no tie / exactly when there is one
+                recs0 = [ev for ev, Q in iter_events(p.events) if ev.kind == "recurse"]
+                if k0 is True:
+                    rep.check(not neg and not recs0, "W.decision", site, "tie at layer 0", "a tie at the lowest layer ⇒ False, no tie ⇒ True (no recursion below layer 0)",
+                              extracted=f"the answer is {'a tie exists' if neg else 'no tie exists'}, {len(recs0)} recursive call(s)", required="no tie exists, none", function=site)
+                else:
+                    rep.violation("W.decision", site, "every tie", "above the lowest layer every tie is handed to the recursion", extracted="the answer is whether a tie exists", required="a recursive answer per tie", function=site)
+                continue
+            if pp[0] == "forall" and pp[2][0] == "members" and isinstance(pp[2][1], tuple) and pp[2][1][:2] == ties_d and set(pp[2][1][2:]) == {V, Fm} and pp[3] == PTRUE \
+                    and pp[4][0] == "truthy" and isinstance(pp[4][1], tuple) and pp[4][1][:1] == ("rec",) and not neg and tie:
+                if k0 is not False:
+                    rep.violation("W.decision", site, "tie at layer 0", "the recursion below a tie is not guarded against layer 0", extracted="no test of k" if K0 is None else "k may be 0", required="k=0 ⇒ False", function=site)
+                _check_tie_recursion(rep, be, site, tie[-1], p, lex=False)
+                continue
+            raise AnalysisError(f"{site}: the answer is a condition this rule cannot read: {show_pred(rv.p)[:200]}")
         if E is True:
             if X not in (None, "complete"):
                 continue  # infeasible: the tie loop cannot be left at a member of a family just found empty
